@@ -9,7 +9,8 @@ import (
 
 // Error-check table (C11): every call whose result includes an error coming (directly or through the cache) from the
 // persistence layer, and what the caller does with that error:
-//   "checked"  bound and tested at once with a return in the error branch
+//   "checked"  bound and tested at once with a return in the error branch whose error result is not the literal nil
+//   "swallowed" bound and tested at once, but the error branch returns nil as the error
 //   "returned" returned to the caller as is
 //   "dropped"  result discarded (expression statement, blank identifier, or inside a go statement)
 //   "bound"    bound but not tested by the next statement
@@ -54,21 +55,35 @@ func emitErrors(c *Ctx) {
 			}
 			return "", nil
 		}
-		isErrTest := func(s ast.Stmt) bool {
+		// the error branch returns, and what it returns as its last result is not the literal nil
+		returnsError := func(body *ast.BlockStmt) (returns, nonNil bool) {
+			for _, b := range body.List {
+				if r, ok := b.(*ast.ReturnStmt); ok {
+					returns = true
+					nonNil = len(r.Results) > 0 && exprText(c, r.Results[len(r.Results)-1]) != "nil"
+					return
+				}
+			}
+			return
+		}
+		// "checked", "swallowed" (the error branch returns nil as the error) or "" (not an error test)
+		errTest := func(s ast.Stmt) string {
 			is, ok := s.(*ast.IfStmt)
 			if !ok || is.Init != nil {
-				return false
+				return ""
 			}
 			cond := exprText(c, is.Cond)
 			if cond != "err != nil" && cond != "e != nil" {
-				return false
+				return ""
 			}
-			for _, b := range is.Body.List {
-				if _, ok := b.(*ast.ReturnStmt); ok {
-					return true
-				}
+			returns, nonNil := returnsError(is.Body)
+			if !returns {
+				return ""
 			}
-			return false
+			if !nonNil {
+				return "swallowed"
+			}
+			return "checked"
 		}
 		record := func(callee string, ce *ast.CallExpr, handling string) {
 			sites = append(sites, errSite{name, callee, handling, c.Fset.Position(ce.Pos()).Line})
@@ -98,8 +113,8 @@ func emitErrors(c *Ctx) {
 						record(callee, ce, "dropped")
 					case inGo:
 						record(callee, ce, "dropped")
-					case next != nil && isErrTest(next):
-						record(callee, ce, "checked")
+					case next != nil && errTest(next) != "":
+						record(callee, ce, errTest(next))
 					default:
 						record(callee, ce, "bound")
 					}
@@ -109,15 +124,13 @@ func emitErrors(c *Ctx) {
 					for _, r := range as.Rhs {
 						if callee, ce := calleeOf(r); ce != nil {
 							cond := exprText(c, x.Cond)
-							returns := false
-							for _, b := range x.Body.List {
-								if _, ok := b.(*ast.ReturnStmt); ok {
-									returns = true
-								}
-							}
-							if (cond == "err != nil" || cond == "e != nil") && returns {
+							returns, nonNil := returnsError(x.Body)
+							switch {
+							case (cond == "err != nil" || cond == "e != nil") && returns && nonNil:
 								record(callee, ce, "checked")
-							} else {
+							case (cond == "err != nil" || cond == "e != nil") && returns:
+								record(callee, ce, "swallowed")
+							default:
 								record(callee, ce, "bound")
 							}
 						}
